@@ -7,6 +7,7 @@ Open Scope Z_scope.
 Inductive case :=
 | CScen (cls : list scl) (ghosts : list (Z * list Z))    (* ghost objects: name, server names; synced after the clusters *)
         (unh : list Z)     (* endpoints (local numbers, cluster of the action) made unhealthy before the drain *)
+        (bad : Z)          (* the removal's server list also has an unusable URL: 1 = first, 2 = last, 0 = no *)
         (reqs : list sreq) (act : saction) (after : list sreq)
         (ro ao : list robs) (co : list clobs)
 | CBroken.
@@ -117,11 +118,14 @@ Definition drain_ops (cls : list scl) (s : st) (act : saction) (unh : list Z) : 
          end
   end.
 
-Definition act_op (cls : list scl) (ghosts : list (Z * list Z)) (act : saction) : list op :=
+Definition with_bad (bad : Z) (sv : list (Z * bool)) : list (Z * bool) :=
+  if bad =? 1 then (-1, false) :: sv else if bad =? 2 then sv ++ [(-1, false)] else sv.
+
+Definition act_op (cls : list scl) (ghosts : list (Z * list Z)) (bad : Z) (act : saction) : list op :=
   match act with
   | AGhost g => match nth_error ghosts g with Some x => [ODelete (fst x)] | None => [] end
   | ADelete ci _ => [ODelete (cl_name cls ci)]
-  | ARemove ci eps d => [OUpsert (cl_name cls ci) (cl_aliases cls ci) (drained_servers cls ci d eps)]
+  | ARemove ci eps d => [OUpsert (cl_name cls ci) (cl_aliases cls ci) (with_bad bad (drained_servers cls ci d eps))]
   | ANone => []
   end.
 
@@ -185,12 +189,12 @@ Definition cl_agrees (cls : list scl) (s0 s : st) (evs : list event) (ci : nat) 
                  end) (ep_names cls ci) (o_eps c)
   end.
 
-Definition agree (cls : list scl) (ghosts : list (Z * list Z)) (unh : list Z) (reqs : list sreq) (act : saction)
+Definition agree (cls : list scl) (ghosts : list (Z * list Z)) (unh : list Z) (bad : Z) (reqs : list sreq) (act : saction)
                  (after : list sreq) (ro ao : list robs) (co : list clobs) : bool :=
   let s0 := setup cls ghosts in
   let s1 := bring_all cls s0 0 reqs ro in
   let s1d := run code_ctxcheck s1 (drain_ops cls s1 act unh) in
-  let s2 := run code_ctxcheck s1d (act_op cls ghosts act) in
+  let s2 := run code_ctxcheck s1d (act_op cls ghosts bad act) in
   let s3 := wind_all s2 0 reqs ro in
   let s4 := bring_all cls s3 1000 after ao in
   let s5 := wind_all s4 1000 after ao in
@@ -205,7 +209,7 @@ Definition agree (cls : list scl) (ghosts : list (Z * list Z)) (unh : list Z) (r
 (* clause layout: agree, not_routed, inflight_cut, prompt, probing_stops, others_unaffected *)
 Definition eval (c : case) : list bool :=
   match c with
-  | CScen cls ghosts unh reqs act after ro ao co =>
-      agree cls ghosts unh reqs act after ro ao co :: scen_ok cls reqs act after ro ao co
+  | CScen cls ghosts unh bad reqs act after ro ao co =>
+      agree cls ghosts unh bad reqs act after ro ao co :: scen_ok cls reqs act after ro ao co
   | CBroken => [false; true; true; true; true; true]
   end.
